@@ -43,4 +43,16 @@ def assign (_ xs : List α) : List α := xs
 /-- `Swap(i, j)` for valid indices -/
 def swap (d : α) (l : List α) (i j : Nat) : List α := (l.set i (l.getD j d)).set j (l.getD i d)
 
+/-- `Sort(from, to)`: the sub-range `[from, min to length)` is replaced by its stable sort -/
+def sort (ssort : List α → List α) (l : List α) (from_ to : Nat) : List α :=
+  if min to l.length > from_ then l.take from_ ++ ssort ((l.drop from_).take (min to l.length - from_)) ++ l.drop (min to l.length) else l
+/-- the clipping of `(startIndex, numItems)` against the source length, as all multi-item calls do it -/
+def clip (l : List α) (start num : Nat) : List α := (l.drop start).take (min num (if start < l.length then l.length - start else 0))
+/-- `operator==` -/
+def equals [DecidableEq α] (l xs : List α) : Bool := l.length = xs.length && l == xs
+/-- `StartsWith(queue)` -/
+def startsWith [DecidableEq α] (l xs : List α) : Bool := if xs.length > l.length then false else l.take xs.length == xs
+/-- `EndsWith(queue)` -/
+def endsWith [DecidableEq α] (l xs : List α) : Bool := if xs.length > l.length then false else l.drop (l.length - xs.length) == xs
+
 end Muscle.Containers.Spec
